@@ -242,6 +242,9 @@ class NumericalGradient(Operator):
         """Return ``self(x)``."""
         # The algorithm takes finite differences in one dimension at a time
         # reusing the dx vector to improve efficiency.
+        # The gradient is the representative of the derivative with respect
+        # to the inner product of the space, hence the difference quotient
+        # in direction `e_i` is divided by the weight `<e_i, e_i>`.
         dfdx = self.domain.zero()
         dx = self.domain.zero()
 
@@ -250,18 +253,22 @@ class NumericalGradient(Operator):
             for i in range(self.domain.size):
                 dx[i - 1] = 0  # reset step from last iteration
                 dx[i] = self.step
-                dfdx[i] = fx - self.functional(x - dx)
+                dfdx[i] = ((fx - self.functional(x - dx)) /
+                           (dx.inner(dx) / self.step ** 2))
         elif self.method == 'forward':
             fx = self.functional(x)
             for i in range(self.domain.size):
                 dx[i - 1] = 0  # reset step from last iteration
                 dx[i] = self.step
-                dfdx[i] = self.functional(x + dx) - fx
+                dfdx[i] = ((self.functional(x + dx) - fx) /
+                           (dx.inner(dx) / self.step ** 2))
         elif self.method == 'central':
             for i in range(self.domain.size):
                 dx[i - 1] = 0  # reset step from last iteration
                 dx[i] = self.step / 2
-                dfdx[i] = self.functional(x + dx) - self.functional(x - dx)
+                dfdx[i] = ((self.functional(x + dx) -
+                            self.functional(x - dx)) /
+                           (dx.inner(dx) / (self.step / 2) ** 2))
         else:
             raise RuntimeError('unknown method')
 
